@@ -200,12 +200,7 @@ def _coerce_arguments(ck, repo):
     ck.ob("coerce_arguments: any error fails the whole argument set by raising", ok, f, rs[0] if rs else f.node, construct="args:raise")
     final = [r for r in fv.returns() if unparse(r.value) == "coerced_values"]
     ck.ob("coerce_arguments returns the coerced dictionary", len(final) == 1, f, final[0] if final else f.node, construct="args:return")
-    # the raise happens inside the field's try (C02.R2 funnel): the call in resolve_field_value_or_error is in its try
-    r = repo.func("tartiflette/resolver/factory.py", "resolve_field_value_or_error")
-    rv = FuncView(r)
-    ca = rv.maybe_call("coerce_arguments")
-    ck.ob("field arguments are coerced inside the field's own try (a failure fails that field only)", ca is not None and rv.in_broad_try(ca) is not None, r,
-          ca or r.node, construct="args:field-funnel")
+    field_funnel(ck, repo)
     # directive arguments: per-instance coercer
     g = repo.func("tartiflette/types/helpers/get_directive_instances.py", "compute_directive_nodes")
     gv = FuncView(g)
@@ -228,6 +223,17 @@ def _coerce_arguments(ck, repo):
 
 
 # ---------------------------------------------------------------------------
+
+
+def field_funnel(ck, repo):
+    """Argument coercion raises inside the field's own try (shared with C09.R3)."""
+    r = repo.func("tartiflette/resolver/factory.py", "resolve_field_value_or_error")
+    rv = FuncView(r)
+    ca = rv.maybe_call("coerce_arguments")
+    ck.ob("field arguments are coerced inside the field's own try (a failure fails that field only, it does not escape to the operation)",
+          ca is not None and rv.in_broad_try(ca) is not None, r, ca or r.node, construct="args:field-funnel")
+    w = rv.maybe_call("wraps_with_directives")
+    ck.ob("query-side directives are computed inside the field's own try as well", w is not None and rv.in_broad_try(w) is not None, r, w or r.node, construct="args:directives-funnel")
 
 
 def _siblings(ck, repo):
